@@ -235,6 +235,9 @@ func (w *Worker) intrinsic(fn *ssa.Function, args []Value) (Value, bool) {
 		return tt.BV(64, uint64(w.curTask)), true
 	case "verifInEngine":
 		return tt.Bool(true), true
+	case "verifDivZeroPrune":
+		w.cfg.DivZeroPrune = args[0].(*Term).B
+		return nil, true
 	case "verifSymSlices":
 		w.cfg.SymSlices = args[0].(*Term).B
 		return nil, true
